@@ -168,6 +168,10 @@ class Run:
         self.inj = fab.host('inj', INJ_ADDR, 'sub0')
         self.rx = []
         self.inj.raw_rx = self._inj_rx
+        # a second raw host: the (real) router of remote network 5 for the routed follow-up request
+        self.rtr = fab.host('rtr', '10.0.0.8/24', 'sub0')
+        self.rtr_rx = []
+        self.rtr.raw_rx = lambda src, dst, octets: self.rtr_rx.append((w.log('rtrrx', octets.hex()), w.now, octets))
         device = SimDevice(objectName='dev', objectIdentifier=('device', 1002), maxApduLengthAccepted=1024,
                            segmentationSupported='segmentedBoth', maxSegmentsAccepted=16, vendorIdentifier=VENDOR,
                            numberOfApduRetries=1, apduTimeout=2000, apduSegmentTimeout=1000)
@@ -262,6 +266,28 @@ def follow_up(run, out, sig_extra):
     pv = run.av1.presentValue
     want_pv = wire.ctx_objid(0, OT_AV, 1) + wire.ctx_enum(1, P_PV) + wire.ctx_open(3) + wire.tag_real(pv) + wire.ctx_close(3)
     ok2 = n2 == 1 and k2 == ['cack'] and u2[0][1]['data'] == want_pv
+    # a valid request from a station on remote network 5, arriving through its router: the answer must go back through
+    # that router -- whatever garbage claiming to come from network 5 the device saw before
+    mark3 = w.seq
+    routed = wire.encode_bvll(wire.BV_ORIG_UNICAST, wire.encode_npdu(wire.conf_req(203, 12, wire.ctx_objid(0, OT_AV, 2) + wire.ctx_enum(1, P_NAME)), snet=5, sadr=b'\x01', der=True))
+    w.log('rtrtx', routed.hex())
+    run.rtr.send(routed, DEV_T)
+    run.quiesce(30.0)
+    got3 = []
+    for (seq, t, octets) in run.rtr_rx:
+        if seq <= mark3:
+            continue
+        v = wire.decode_bvll(octets)
+        n = wire.decode_npdu(v['npdu']) if v and 'npdu' in v else None
+        a = wire.decode_apdu(n['apdu']) if n and not n['netmsg'] else None
+        if a is not None and a.get('invoke') == 203:
+            got3.append((n['dnet'], n['dadr'], a['name'], a.get('data')))
+    ok3 = len(got3) == 1 and got3[0][0] == 5 and got3[0][1] == b'\x01' and got3[0][2] == 'cack' and got3[0][3] == want_name
+    if not ok3:
+        stray = run.replies(203, mark3)[1]
+        out.append({'clause': 'C10.d', 'detail': 'follow-up ReadProperty routed from network 5 through router 10.0.0.8 was answered %r at that router (expected one ComplexAck with DNET 5); '
+                    'replies with that invoke id that reached the garbage injector instead: %r' % ([(g[0], g[2]) for g in got3], stray), 'sigkey': 'followup-routed',
+                    'sig': dict({'kind': 'followup-routed', 'misdirected': bool(stray)}, **sig_extra)})
     if not (ok1 and ok2):
         s = {'kind': 'followup'}
         s.update(sig_extra)
